@@ -102,7 +102,9 @@ CcApply(st, cc) ==
 ConfStateOf(st) == [voters |-> st.voters, outgoing |-> st.outgoing, learners |-> st.learners,
                     learnersNext |-> st.learnersNext, autoLeave |-> st.autoLeave]
 
-SetToSeq(S) == CHOOSE s \in [1..Cardinality(S) -> S] : \A a, b \in 1..Cardinality(S) : a # b => s[a] # s[b]
+RECURSIVE SetToSeq(_)
+SetToSeq(S) == IF S = {} THEN <<>>
+               ELSE LET m == CHOOSE x \in S : \A y \in S : x <= y IN <<m>> \o SetToSeq(S \ {m})
 
 RECURSIVE CcChainSimple(_, _)
 CcChainSimple(res, chs) ==
